@@ -102,7 +102,8 @@ def main(argv):
             allres[k_] = row_
         results = {k: v for k, v in allres.items() if os.path.isdir(os.path.join(SEEDED, k))}
         json.dump(results, open(rj, 'w'), indent=1, sort_keys=True)
-        caught = sum(1 for r in results.values() if any(isinstance(v, dict) and v.get('exit') == 1 for v in r.values()))
+        retired = set(k for k in results if json.load(open(os.path.join(SEEDED, k, 'meta.json'))).get('retired'))
+        caught = sum(1 for k, r in results.items() if k not in retired and any(isinstance(v, dict) and v.get('exit') == 1 for v in r.values()))
         # seeded/RESULTS.md: which check catches which seeded change (regenerated by a full run)
         lines = ['# Seeded changes and the checks that catch them', '',
                  'Generated by `/venv/bin/python -m mc.mutants --tests --write` (tier %s). Each change was applied to a scratch worktree of' % tier,
@@ -117,8 +118,8 @@ def main(argv):
             lines.append('| %s | %s | %s | %s | %s | %s | %s |' % (
                 name, r.get('property'), 'ok' if (r.get('demo_exit_clean') == 0 and r.get('demo_exit') == 1) else 'BAD',
                 {True: 'passes', False: 'FAILS', None: '-'}[r.get('tests_pass')], ', '.join(yes) or '**none**', ', '.join(no) or '-',
-                (meta.get('summary') or '').replace('|', '/').replace('\n', ' ')[:160]))
-        lines += ['', 'caught %d of %d' % (caught, len(results))]
+                ('RETIRED (see meta.json): ' if meta.get('retired') else '') + (meta.get('summary') or '').replace('|', '/').replace('\n', ' ')[:160]))
+        lines += ['', 'caught %d of %d (%d retired changes not counted: %s)' % (caught, len(results) - len(retired), len(retired), ', '.join(sorted(retired)) or '-')]
         with open(os.path.join(SEEDED, 'RESULTS.md'), 'w') as f:
             f.write('\n'.join(lines) + '\n')
     return 0
